@@ -1,1 +1,6 @@
-include!("c10.rs");
+//! C11 harness = the C10/C11 shared harness (one model, one workload builder): see c10.rs.
+#[path = "c10.rs"]
+mod wal;
+fn main() {
+    wal::main()
+}
